@@ -1041,3 +1041,16 @@ PROPS["C13"]["trusted_base"] = list(PROPS["C13"]["trusted_base"]) + ["the Rust s
 # ---- round-4 text deltas (C17 scoped names)
 PROPS["C17"]["rule"] += ' ; SCOPED NAMES as a first-class query: (gscoped "A::B::C") = get_type_scoped on the module, (cscoped "C" n) / (rscoped "C" n) = get_type_scoped / resolve_type_scoped on class C (star forms: gscoped* the listed names, cscoped* / rscoped* every class x the listed names); every table with member types (844 quick) and every fourth random table gets about 140 module-level names `A`, `A::B`, `A::B::C` with A among up to 5 classes (first, last, those declaring enums) / a module enum / a builtin / an unknown name and B among the members of A, of ancestors, of DESCENDANTS, sibling and top-level classes, A itself, module enums, builtins, nested enums of other classes, enumerators, unknown names, and (tables of at most 12 classes) 28 names from every class; exact answers `-` | (ok class|enum|prim "Qualified") vs the model, coarse `(found)` | `-` vs the specification, and the exact answers judged (kind=pred): found iff every part after the first is a nested enum DECLARED by the class before it or one of its public ancestors (never something merely visible from there), the owner of the enum found an ancestor-or-self that declares it, nothing has a third part; WHOLE PIPELINE: 608 documents (`let n: A.B = …`, `(… as A.B)`, the enumerator `A.V`; 59 also through the real binary) over two class families with nested enums (chain + sibling with a scoped enum; diamond) and A among the family and QWidget / QPushButton / QAbstractButton: accepted iff B (resp. V) is declared by A or a public ancestor, else \'undefined type\' / \'undefined reference\' (\'bare type reference\' for a member enum type used as a value); corpus/C17/scoped_names.c17.req'
 PROPS["C17"]["level_text"] += "  Scoped names (moduleGetTypeScoped / classGetTypeScoped / classResolveTypeScoped): scoped_found_only_members (a scoped name of two or more parts is found only with exactly two parts, A a class, B found by A's member look-up), scoped_found_iff_member (A::B found iff A or a public ancestor declares the nested enum B; the enum found is declared by a class A derives from)."
+
+# ---- round-4 text deltas (typing / program generators)
+PROPS["C05"]["rule"] += (" Operand-swap edits break exactly ONE operand position — the left or the right operand of every operator class (arithmetic, "
+    "bitwise, shift, comparison, logical, Math.max/min, pointer/enum comparison), the condition, the consequence or the alternative of a ternary — "
+    "decided on the side stream and labelled pos:*.")
+for _p in ("C06", "C01", "C03"):
+    PROPS[_p]["rule"] += (" A quarter of the block bindings are mixed-constness blocks: constant completion value (final expression or final return) "
+        "after dynamic early returns (if, else-if chain, switch clauses, through a let) and the mirror image, all-constant paths under a dynamic or "
+        "literal condition; none may be evaluated as a constant (eval field of the exact IR).")
+PROPS["C02"]["level_text"] += (" evaluated_constant_entry / branching_entry_not_constant / reading_entry_not_constant — a body evaluate_code folds to a "
+    "constant has an entry block that returns that constant, or that neither branches on a condition nor assigns a property read: a body whose entry "
+    "block branches is never folded (the constant fast path looks at the entry block; tied by the eval field of the exact-IR stream).")
+PROPS["C01"]["rule"] += " A binding folded to a constant must have one defined specification value over all states of the batch (constant-but-state-dependent otherwise)."
